@@ -5,6 +5,7 @@ import (
 	"compress/gzip"
 	"fmt"
 	"io"
+	"net/http"
 	"net/http/httptest"
 	"sort"
 	"strconv"
@@ -44,13 +45,40 @@ type C19Case struct {
 	Workers  int             `json:"workers"` // concurrent part
 	// Modes: how each route's function answers (by route id): 0 raw bytes, 1 WriteEntity,
 	// 2 WriteHeaderAndEntity, 3 WriteErrorString, 4 WriteServiceError, 5 WriteAsJson,
-	// 6 ReadEntity first, then raw bytes that echo what was read
+	// 6 ReadEntity first, then raw bytes that echo what was read, 7 the raw request body is read
+	// and echoed, 8 BodyParameter("a") and then the rest of the raw body
 	Modes map[string]int `json:"modes,omitempty"`
 	// GzBody: indices of requests whose body travels gzip-encoded (Content-Encoding: gzip)
 	GzBody []int `json:"gz_body,omitempty"`
 	// Provider: compressor provider, installed afresh for the reference requests and for every history
 	Provider string `json:"provider,omitempty"` // "" / "pool": sync.Pool, "bounded": NewBoundedCachedCompressors(1, 1)
+	// Compact: PrettyPrintResponses is switched off (entities go through the streaming encoders)
+	Compact bool `json:"compact,omitempty"`
+	// FailAt: per request, the number of response bytes after which the client's connection
+	// fails (every later write returns an error); -1 or absent: never. What such a client got
+	// is compared like everything else, and no other request may notice.
+	FailAt []int `json:"fail_at,omitempty"`
 }
+
+// c19FailingWriter accepts a number of body bytes and fails from then on.
+type c19FailingWriter struct {
+	*httptest.ResponseRecorder
+	left int
+}
+
+func (w *c19FailingWriter) Write(p []byte) (int, error) {
+	if len(p) <= w.left {
+		w.left -= len(p)
+		return w.ResponseRecorder.Write(p)
+	}
+	n := w.left
+	w.left = 0
+	if n > 0 {
+		w.ResponseRecorder.Write(p[:n])
+	}
+	return n, io.ErrClosedPipe
+}
+func (w *c19FailingWriter) WriteString(p string) (int, error) { return w.Write([]byte(p)) }
 
 // c19Entity is what the entity-writing route functions answer with.
 type c19Entity struct {
@@ -69,7 +97,7 @@ func genC19(t *rapid.T, concurrent bool) C19Case {
 		c.Table.Services[si].NFilters = rapid.IntRange(0, 2).Draw(t, "svcfilters")
 		for ri := range c.Table.Services[si].Routes {
 			c.Table.Services[si].Routes[ri].NFilters = rapid.IntRange(0, 2).Draw(t, "routefilters")
-			if m := rapid.SampledFrom([]int{0, 0, 0, 1, 1, 1, 2, 3, 4, 5, 6, 6}).Draw(t, "writemode"); m != 0 {
+			if m := rapid.SampledFrom([]int{0, 0, 0, 1, 1, 1, 2, 3, 4, 5, 6, 6, 7, 7, 8}).Draw(t, "writemode"); m != 0 {
 				if c.Modes == nil {
 					c.Modes = map[string]int{}
 				}
@@ -119,6 +147,17 @@ func genC19(t *rapid.T, concurrent bool) C19Case {
 				r.Headers = append(r.Headers, model.H{K: "Accept-Encoding", V: rapid.SampledFrom([]string{"gzip", "deflate"}).Draw(t, "ae")})
 			}
 		}
+		if r.Body != "" && rapid.IntRange(0, 5).Draw(t, "formbody") == 0 {
+			// a form: filters and route functions may look at it, each request brings its own
+			var hs []model.H
+			for _, h := range r.Headers {
+				if h.K != "Content-Type" {
+					hs = append(hs, h)
+				}
+			}
+			r.Headers = append(hs, model.H{K: "Content-Type", V: "application/x-www-form-urlencoded"})
+			r.Body = "a=" + strconv.Itoa(i) + "&b=2"
+		}
 		if rapid.IntRange(0, 7).Draw(t, "inject") == 0 {
 			r.Headers = append(r.Headers, model.H{K: "X-Inject", V: "i" + strconv.Itoa(i)})
 		}
@@ -128,6 +167,16 @@ func genC19(t *rapid.T, concurrent bool) C19Case {
 		c.Reqs = append(c.Reqs, r)
 	}
 	c.Provider = rapid.SampledFrom([]string{"pool", "pool", "pool", "pool", "pool", "pool", "pool", "bounded"}).Draw(t, "provider")
+	c.Compact = rapid.IntRange(0, 3).Draw(t, "compact") == 0
+	if rapid.IntRange(0, 3).Draw(t, "failingclients") == 0 {
+		c.FailAt = make([]int, n)
+		for i := range c.FailAt {
+			c.FailAt[i] = -1
+			if rapid.IntRange(0, 4).Draw(t, "fails") == 0 {
+				c.FailAt[i] = rapid.SampledFrom([]int{0, 0, 1, 5, 20, 60}).Draw(t, "failat")
+			}
+		}
+	}
 	idx := make([]int, n)
 	for i := range idx {
 		idx[i] = i
@@ -169,6 +218,18 @@ func buildC19(c C19Case) (*restful.Container, interface{}) {
 		text := fmt.Sprintf("route=%s sel=%s doc=%s params=%s tag=%v stag=%v rtag=%v", id, sel, doc, strings.Join(ps, ","), req.Attribute("tag"), req.Attribute("stag"), req.Attribute("rtag"))
 		ent := c19Entity{Route: id, Sel: sel, Params: strings.Join(ps, ","), Tags: fmt.Sprint(req.Attribute("tag"), req.Attribute("stag"), req.Attribute("rtag"))}
 		switch c.Modes[id] {
+		case 7, 8:
+			form := ""
+			if c.Modes[id] == 8 {
+				v, err := req.BodyParameter("a")
+				form = fmt.Sprintf(" a=%q failed=%v", v, err != nil)
+			}
+			var raw []byte
+			if req.Request.Body != nil {
+				raw, _ = io.ReadAll(req.Request.Body)
+			}
+			resp.WriteHeader(200)
+			fmt.Fprintf(resp, "%s%s body=%q", text, form, raw)
 		case 6:
 			var v map[string]interface{}
 			err := req.ReadEntity(&v)
@@ -288,6 +349,11 @@ func c19Send(ct *restful.Container, c C19Case, i int, via string) string {
 		}
 	}
 	w := httptest.NewRecorder()
+	var hw http.ResponseWriter = w
+	failing := len(c.FailAt) == len(c.Reqs) && c.FailAt[i] >= 0
+	if failing {
+		hw = &c19FailingWriter{ResponseRecorder: w, left: c.FailAt[i]}
+	}
 	pan := ""
 	func() {
 		defer func() {
@@ -296,12 +362,16 @@ func c19Send(ct *restful.Container, c C19Case, i int, via string) string {
 			}
 		}()
 		if via == harness.ViaServe {
-			ct.ServeHTTP(w, hr)
+			ct.ServeHTTP(hw, hr)
 		} else {
-			ct.Dispatch(w, hr)
+			ct.Dispatch(hw, hr)
 		}
 	}()
 	body, derr := decodeBody(w.Header().Get("Content-Encoding"), w.Body.Bytes())
+	if failing && w.Header().Get("Content-Encoding") != "" {
+		// a coded stream that was cut: how much of it decodes is the decoder's business
+		body, derr = nil, nil
+	}
 	var hs []string
 	for k, v := range w.Header() {
 		hs = append(hs, k+"="+strings.Join(v, "|"))
@@ -313,6 +383,7 @@ func c19Send(ct *restful.Container, c C19Case, i int, via string) string {
 func checkC19(c C19Case, partName string) (vs []*Violation) {
 	st := stats.For("C19", partName)
 	defer harness.ResetGlobals()
+	restful.PrettyPrintResponses = !c.Compact
 	n := len(c.Reqs)
 	if n == 0 {
 		return nil
@@ -362,6 +433,12 @@ func checkC19(c C19Case, partName string) (vs []*Violation) {
 		labels = append(labels, "gzip_request_bodies")
 	}
 	labels = append(labels, "provider_"+c.Provider)
+	if c.Compact {
+		labels = append(labels, "compact_entities")
+	}
+	if len(c.FailAt) > 0 {
+		labels = append(labels, "some_clients_fail")
+	}
 	compare := func(mode string, i, pos int, got string) {
 		if got != ref[i] && len(vs) < 10 {
 			r := c.Reqs[i]
